@@ -177,6 +177,8 @@ class TermBuilder:
                             for lf in parent.origins(c.args[-1], passthrough={}):
                                 if lf["kind"] == "agg" and lf["stmt"] is st:
                                     env["item"] = ("call", "std::iter::Iterator::next", (ptb.term(c.args[0], 2),))
+                                    # fold-style adaptors hand the accumulator first, the item second
+                                    env["item_n"] = 3 if re.search(r"::(fold|try_fold|rfold|try_rfold)$", c.decl) else 2
                     return env
         return None
 
@@ -215,7 +217,7 @@ class TermBuilder:
                     base = self.env[int(pr[0][1:])]
                     rest = tuple(pr[1:])
                     return simplify_proj(base, rest) if rest else base
-            if self.env is not None and lf["n"] == 2 and "item" in self.env:
+            if self.env is not None and "item" in self.env and lf["n"] == self.env.get("item_n", 2):
                 pr = tuple(p for p in lf["proj"] if p != "*")
                 return simplify_proj(self.env["item"], pr) if pr else self.env["item"]
             return ("arg", arg_name(b, lf["n"], lf["proj"]))
